@@ -26,13 +26,12 @@ structure Prog where
   fns : Array Fn
   deriving Inhabited
 
-/-- split-port regions for C17: `[lo, lo+len)` is a write port whose cells live `delta` higher
-    (the read port). Reading the write port, writing the read port, or a read-modify-write on
-    either is a fault. -/
+/-- split-port regions for C17. Reading the write port, writing the read port, or a
+    read-modify-write on either is a fault. -/
 structure Port where
-  wlo : Nat
+  wlo : Nat      -- write port  [wlo, wlo+len)
+  rlo : Nat      -- read port   [rlo, rlo+len); the cells live here
   len : Nat
-  delta : Nat
   deriving Repr, Inhabited
 
 inductive Stop where
@@ -76,11 +75,11 @@ def accessKind : Mn → Option Acc
 
 /-- translate an effective address through the split-port map; returns (address, fault) -/
 def xlat (ports : List Port) (a : Nat) (k : Acc) : Nat × Bool :=
-  match ports.find? fun p => (p.wlo ≤ a && a < p.wlo + p.len) || (p.wlo + p.delta ≤ a && a < p.wlo + p.delta + p.len) with
+  match ports.find? fun p => (p.wlo ≤ a && a < p.wlo + p.len) || (p.rlo ≤ a && a < p.rlo + p.len) with
   | none => (a, false)
   | some p =>
     let inW := p.wlo ≤ a && a < p.wlo + p.len
-    let cell := if inW then a + p.delta else a
+    let cell := if inW then a - p.wlo + p.rlo else a
     match k with
     | .rd => (cell, inW)
     | .wr => (cell, !inW)
